@@ -132,6 +132,9 @@ type ScanSchema struct {
 	// Staff is a child store over People (population: people with child data), StaffX an extended one (all people)
 	Staff  *boltz.BaseStore[boltz.Entity]
 	StaffX *boltz.BaseStore[boltz.Entity]
+	// Twin is another store whose symbols have the same names as People's but other types (sa is a number there,
+	// ia a string ...): the same filter text means something else for it
+	Twin *boltz.BaseStore[boltz.Entity]
 }
 
 // symbol layout helpers (variant bit 0: symbol name != bucket key; bit 1: some symbols under a prefix path)
@@ -179,6 +182,17 @@ func NewScanSchema(variant int) *ScanSchema {
 	q.AddSymbol("n", ast.NodeTypeInt64)
 	q.AddSetSymbol("businesses", ast.NodeTypeString)
 	q.AddFkSetSymbol("people", p)
+
+	tw := boltz.NewBaseStore(boltz.StoreDefinition[boltz.Entity]{EntityType: "twins", BasePath: []string{"application"}})
+	tw.AddIdSymbol("id", ast.NodeTypeString)
+	for f, typ := range map[string]ast.NodeType{"sa": ast.NodeTypeInt64, "sb": ast.NodeTypeFloat64, "ia": ast.NodeTypeString, "ib": ast.NodeTypeString,
+		"fa": ast.NodeTypeString, "ba": ast.NodeTypeString, "ta": ast.NodeTypeString, "boss": ast.NodeTypeInt64, "home": ast.NodeTypeInt64} {
+		tw.AddSymbol(f, typ)
+	}
+	tw.AddSetSymbol("roles", ast.NodeTypeInt64)
+	tw.AddSetSymbol("nums", ast.NodeTypeInt64)
+	tw.AddMapSymbol("tags", ast.NodeTypeAnyType, "tags")
+	s.Twin = tw
 
 	s.Staff = boltz.NewBaseStore(boltz.StoreDefinition[boltz.Entity]{Parent: p, BasePath: []string{"ext_staff"}})
 	p.GrantSymbols(s.Staff)
